@@ -256,6 +256,7 @@ theorem appendLoop_spec {n : Nat} {S : Nat → Prop} (hS : ∀ a, S a → a < n)
         · left; rfl
         · rename_i cq1 p2' href
           have hcq1 : ∀ c ∈ cq1, c < n := by
+            unfold refillQueue at href
             split at href
             · split at href
               · simp at href
@@ -923,6 +924,204 @@ theorem gnsp_eq_loop (q : List Nat) (cur : Nat) (used : List Nat) :
   cases splitSuitable cur used q with
   | some r => rfl
   | none => cases q <;> rfl
+
+
+
+
+
+/-! ### streams that `math/rand.Perm` can deliver never make the model answer `badInput` -/
+
+/-- what `rand.Perm(m)` delivers, as far as the model reads it: `m` entries, all below `m` -/
+def ValidPerm (m : Nat) (p : List Nat) : Prop := p.length = m ∧ ∀ x ∈ p, x < m
+
+instance (m : Nat) (p : List Nat) : Decidable (ValidPerm m p) := by unfold ValidPerm; exact inferInstance
+
+theorem pickAuthor_some {authors cur : List Nat} {idx : Nat} (hc : ValidPerm authors.length cur) (hi : idx < authors.length) :
+    ∃ a, pickAuthor authors cur idx = some a := by
+  unfold pickAuthor
+  have h1 : idx < cur.length := by rw [hc.1]; exact hi
+  rw [List.getElem?_eq_getElem h1]
+  simp only
+  have h2 : cur[idx] < authors.length := hc.2 _ (List.getElem_mem h1)
+  exact ⟨authors[cur[idx]], List.getElem?_eq_getElem h2⟩
+
+theorem fillLoop_ne_bad (authors : List Nat) (hm : 0 < authors.length) :
+    ∀ (k idx : Nat) (cur : List Nat) (rest : List (List Nat)) (acc : List Nat),
+    ValidPerm authors.length cur → (∀ p ∈ rest, ValidPerm authors.length p) → idx ≤ authors.length →
+    k + idx ≤ authors.length + rest.length * authors.length →
+    fillLoop authors k idx cur rest acc ≠ .badInput := by
+  intro k
+  induction k with
+  | zero => intro idx cur rest acc _ _ _ _; simp [fillLoop]
+  | succ k ih =>
+    intro idx cur rest acc hcur hrest hidx hk
+    simp only [fillLoop]
+    split
+    · rename_i hidx'
+      cases rest with
+      | nil => simp at hk; omega
+      | cons p rest' =>
+        simp only
+        have hp : ValidPerm authors.length p := hrest p (by simp)
+        obtain ⟨a, ha⟩ := pickAuthor_some hp hm
+        rw [ha]
+        simp only
+        apply ih 1 p rest' _ hp (fun p' hp' => hrest p' (by simp [hp'])) hm
+        simp only [List.length_cons, Nat.succ_mul] at hk
+        omega
+    · rename_i hidx'
+      obtain ⟨a, ha⟩ := pickAuthor_some hcur (by omega : idx < authors.length)
+      rw [ha]
+      simp only
+      exact ih (idx + 1) cur rest _ hcur hrest (by omega) (by omega)
+
+theorem fillAuthorsQueue_ne_bad (authors : List Nat) (total : Nat) (p1 : List (List Nat))
+    (hv : ∀ p ∈ p1, ValidPerm authors.length p) (hne : p1 ≠ []) (hen : total ≤ p1.length * authors.length) :
+    fillAuthorsQueue authors total p1 ≠ .badInput := by
+  unfold fillAuthorsQueue
+  cases p1 with
+  | nil => exact absurd rfl hne
+  | cons p rest =>
+    simp only
+    split
+    · simp
+    · rename_i ha
+      have hm : 0 < authors.length := List.length_pos_iff.mpr ha
+      apply fillLoop_ne_bad authors hm total 0 p rest [] (hv p (by simp)) (fun p' hp' => hv p' (by simp [hp']))
+        (Nat.zero_le _)
+      simp only [List.length_cons, Nat.succ_mul] at hen
+      omega
+
+/-- the top-up of one author pops at most `k` candidates off the queue -/
+theorem topUpLoop_len {author : Nat} : ∀ (k : Nat) (cq : List Nat) (apc cpa : List (List Nat))
+    (cq' : List Nat) (apc' cpa' : List (List Nat)),
+    topUpLoop author k cq apc cpa = .ok (cq', apc', cpa') → cq.length ≤ cq'.length + k := by
+  intro k
+  induction k with
+  | zero =>
+    intro cq apc cpa cq' apc' cpa' h
+    simp only [topUpLoop, Res.ok.injEq, Prod.mk.injEq] at h
+    rw [h.1]; omega
+  | succ k ih =>
+    intro cq apc cpa cq' apc' cpa' h
+    simp only [topUpLoop] at h
+    split at h
+    · simp only [Res.ok.injEq, Prod.mk.injEq] at h; rw [h.1]; omega
+    · cases hg : getNextSuitablePair cq author (look cpa author) with
+      | none => rw [hg] at h; cases h
+      | some r =>
+        obtain ⟨c, cq1⟩ := r
+        rw [hg] at h
+        simp only at h
+        have := ih _ _ _ _ _ _ h
+        have := (gnsp_spec hg).2.1
+        omega
+
+theorem topUpLoop_ok_or_panic {author : Nat} : ∀ (k : Nat) (cq : List Nat) (apc cpa : List (List Nat)),
+    topUpLoop author k cq apc cpa = .panic ∨ ∃ r, topUpLoop author k cq apc cpa = .ok r := by
+  intro k
+  induction k with
+  | zero => intro cq apc cpa; right; exact ⟨(cq, apc, cpa), by simp [topUpLoop]⟩
+  | succ k ih =>
+    intro cq apc cpa
+    simp only [topUpLoop]
+    split
+    · right; exact ⟨(cq, apc, cpa), rfl⟩
+    · split
+      · left; rfl
+      · exact ih _ _ _
+
+/-- potential argument: every author pops at most 12 candidates, every permutation supplies `n` -/
+theorem appendLoop_ne_bad {n : Nat} : ∀ (todo cq : List Nat) (p2 : List (List Nat)) (apc cpa : List (List Nat)),
+    (∀ p ∈ p2, ValidPerm n p) → 12 * todo.length + n ≤ p2.length * n + cq.length →
+    appendLoop n todo cq p2 apc cpa ≠ .badInput := by
+  intro todo
+  induction todo with
+  | nil => intro cq p2 apc cpa _ _; simp [appendLoop]
+  | cons author todo ih =>
+    intro cq p2 apc cpa hv hpot
+    simp only [List.length_cons] at hpot
+    simp only [appendLoop]
+    split
+    · exact ih cq p2 apc cpa hv (by omega)
+    · split
+      · exact ih cq p2 apc cpa hv (by omega)
+      · rename_i hne hlt
+        -- the refill succeeds
+        have href : ∃ cq1 p2', refillQueue n cq p2 = some (cq1, p2') ∧ (∀ p ∈ p2', ValidPerm n p) ∧
+            12 * (todo.length + 1) + n ≤ p2'.length * n + cq1.length := by
+          unfold refillQueue
+          by_cases hcq : cq = []
+          · subst hcq
+            cases p2 with
+            | nil => simp at hpot
+            | cons p ps =>
+              have hp := hv p (by simp)
+              have hall : p.all (fun c => decide (c < n)) = true :=
+                List.all_eq_true.mpr (fun c hc => by simpa using hp.2 c hc)
+              refine ⟨p, ps, by simp [hall], fun p' hp' => hv p' (by simp [hp']), ?_⟩
+              simp only [List.length_cons, Nat.succ_mul, List.length_nil] at hpot
+              rw [hp.1]; omega
+          · exact ⟨cq, p2, by simp [hcq], hv, hpot⟩
+        obtain ⟨cq1, p2', e, hv', hpot'⟩ := href
+        rw [e]
+        simp only
+        have hk : CandidatesPerAuthor - (look cpa author).length ≤ 12 := by
+          have : 0 < (look cpa author).length := List.length_pos_iff.mpr hne
+          unfold CandidatesPerAuthor; omega
+        rcases topUpLoop_ok_or_panic (author := author) (CandidatesPerAuthor - (look cpa author).length) cq1 apc cpa with hp | ⟨r, hr⟩
+        · rw [hp]; simp
+        · obtain ⟨cq2, apc', cpa'⟩ := r
+          rw [hr]
+          simp only
+          have := topUpLoop_len _ _ _ _ _ _ _ hr
+          exact ih cq2 p2' apc' cpa' hv' (by omega)
+
+theorem appendAdditionalCandidates_ne_bad {n : Nat} (p2 : List (List Nat)) (apc cpa : List (List Nat))
+    (hv : ∀ p ∈ p2, ValidPerm n p) (hlen : 14 ≤ p2.length) :
+    appendAdditionalCandidates n p2 apc cpa ≠ .badInput := by
+  unfold appendAdditionalCandidates
+  cases p2 with
+  | nil => simp at hlen
+  | cons p ps =>
+    simp only
+    have hp := hv p (by simp)
+    have hall : p.all (fun c => decide (c < n)) = true :=
+      List.all_eq_true.mpr (fun c hc => by simpa using hp.2 c hc)
+    rw [if_pos hall]
+    apply appendLoop_ne_bad _ p ps apc cpa (fun p' hp' => hv p' (by simp [hp']))
+    simp only [List.length_range, List.length_cons] at hlen ⊢
+    rw [hp.1]
+    have : 13 * n ≤ ps.length * n := Nat.mul_le_mul_right n (by omega)
+    omega
+
+theorem authorsDistribution_ne_bad (fl : List Nat) (q : Nat) (p1 p2 : List (List Nat))
+    (h1v : ∀ p ∈ p1, ValidPerm (authorsIndexes fl).length p)
+    (h1n : authorsIndexes fl ≠ [] → p1 ≠ [] ∧ fl.length * q ≤ p1.length * (authorsIndexes fl).length)
+    (h2v : ∀ p ∈ p2, ValidPerm fl.length p) (h2n : 7 < (authorsIndexes fl).length → 14 ≤ p2.length) :
+    authorsDistribution fl q p1 p2 ≠ .badInput := by
+  have hS : ∀ a, IsAuthor fl a → a < fl.length := fun a h => h.1
+  unfold authorsDistribution
+  simp only
+  split
+  · simp
+  · rename_i hn
+    split
+    · simp
+    · rename_i ha
+      have hfill := fillAuthorsQueue_ne_bad (authorsIndexes fl) (fl.length * q) p1 h1v (h1n ha).1 (h1n ha).2
+      rcases fillAuthorsQueue_spec (authorsIndexes fl) (fl.length * q) p1 with h | ⟨qu, h1, h2⟩
+      · exact absurd h hfill
+      · rw [h1]
+        simp only
+        obtain ⟨apc, cpa, h3, h4⟩ := firstLoop_spec hS (by omega) qu.length qu 0 _ _ (Nat.le_refl _)
+          (fun x hx => mem_authorsIndexes.mp (h2 x hx)) (Nat.zero_le _) (MapsInv.empty fl.length (IsAuthor fl))
+        rw [h3]
+        simp only
+        split
+        · rename_i h7
+          exact appendAdditionalCandidates_ne_bad p2 apc cpa h2v (h2n h7)
+        · simp
 
 
 
